@@ -31,10 +31,11 @@ class SetMutator(CollectionAttrMutator):
         try:  # If set supports lookup, try that first (e.g. KeyedSet)
             return (value_or_index, self.collection[value_or_index])
         except TypeError:
-            return (
-                value_or_index,
-                value_or_index,
-            )
+            # The stored item (not the merely equal value it was looked up with).
+            for item in self.collection:
+                if item == value_or_index:
+                    return (value_or_index, item)
+            return (value_or_index, value_or_index)  # pragma: no cover
 
     def _inserter(self, index, item, replace=True):  # pylint: disable=arguments-differ
         if not check_type(item, self.attr_spec.item_type):
